@@ -199,6 +199,9 @@ class StackWorld(object):
           alts.append(('reset c%d' % c.id, 1, lambda c=c: self._inject(c, 'reset')))
         if 'block' in faults and not c.write_blocked and not getattr(c, 'was_blocked', False):
           alts.append(('block-writes c%d' % c.id, 1, lambda c=c: (setattr(c, 'was_blocked', True), self._inject(c, 'block-writes'))))
+        if 'block-partial' in faults and not c.write_blocked and not getattr(c, 'was_blocked', False):
+          alts.append(('block-writes-after-6-bytes c%d' % c.id, 1,
+                       lambda c=c: (setattr(c, 'was_blocked', True), self._inject(c, 'block-writes-partial'))))
     for c in net.live_conns():
       c.offered_at = c.activity
     for i, m in enumerate(self.membership):
@@ -299,6 +302,9 @@ class StackWorld(object):
       if 'method' in r:
         if r['method'] != 'hi' or r['arg'] not in args:
           self.v('C02.server-saw-other', 'server decoded %r(%r), callers passed %r' % (r['method'], r['arg'], args))
+      elif 'error' in r and 'raw' in r:
+        self.v('C02.server-saw-garbage', 'on connection c%d the server received a frame that is not a request any caller passed (%s); '
+               'first bytes %r' % (r['conn'], r['error'][:80], bytes(r['raw'][:24])))
 
   def outcome(self):
     from scales.message import TimeoutError as ScalesTimeout
